@@ -738,8 +738,15 @@ def processLine (st : DState) (raw : String) : DState :=
           { st with out := out, viols := st.viols + vs.length, diffs := st.diffs + (if sdiff.isSome && st.main.msync then 1 else 0),
                     counts := bump (bump st.counts ("crash.img:" ++ (st.crashOp.headD "?"))) key }
         else if op0 = "loss.img" then
-          let vs := judgeLoss st.main.spec st.ackW implToks
-          let out := vs.foldl (fun o v => o.push s!"VIOL {st.line} {v} {lhs} w={st.ackW} impl={(String.intercalate " " implToks).take 300}") st.out
+          -- `died` images: a new process recovered the directory and called Sync before the power went: the offset
+          -- that Sync returned is the acknowledgement, and it acknowledges everything (nothing was lost so far)
+          let ackTok := (restOps.find? (·.startsWith "ackw=")).bind (fun t => (t.drop 5).toString.toInt?)
+          let ackUse := ackTok.getD st.ackW
+          let vs := judgeLoss st.main.spec ackUse implToks ++
+            (match ackTok with
+             | some a => if a == st.main.spec.next then [] else ["SyncAfterRecoverOffset"]
+             | none => [])
+          let out := vs.foldl (fun o v => o.push s!"VIOL {st.line} {v} {lhs} w={ackUse} impl={(String.intercalate " " implToks).take 300}") st.out
           -- the loss model (Klev/Loss.lean): only the head's files have an unsynced tail
           let headBase : Option Int := match st.main.mlog with
             | some l => l.segs.getLast?.map (·.base)
@@ -761,6 +768,10 @@ def processLine (st : DState) (raw : String) : DState :=
                     counts := bump (bump st.counts "loss.img") (if outside.isEmpty then "loss.model:head-only" else "loss.model:OUTSIDE") }
         else
         if op0 = "fr.open" then { st with counts := bump st.counts "fr.open" }
+        else if op0 = "fr.cold" then
+          -- a sequential prefix, a close, index files of closed segments removed, a reopen: a supported state
+          if implToks = ["ok"] then { st with counts := bump st.counts "fr.cold" }
+          else { st with viols := st.viols + 1, out := st.out.push s!"VIOL {st.line} SpuriousFailure {lhs} impl={rhs}" }
         else if op0 = "fr.call" then
           let (mt, opT) := (restOps.takeWhile (· ≠ "::"), (restOps.dropWhile (· ≠ "::")).drop 1)
           let c : DFree.Call := { g := (optInt mt "g" 0).toNat, inv := optInt mt "inv" 0, ret := optInt mt "ret" 0, op := opT, impl := implToks }
